@@ -51,6 +51,10 @@ structure St where
   p : Nat
   b : BState (PF p)
   c : Option (Circuit (PF p))
+  /-- every id argument of every builder call of the current program was an id the builder had handed
+  out for a value (`properId`): the program is `P3R.C09R.ReachablePrim` (the command vocabulary has no
+  raw `push_non_primitive_op_with_outputs`). -/
+  rp : Bool := true
 
 def St.init : St := { p := babyBearP, b := BState.init, c := none }
 
@@ -105,8 +109,17 @@ def prepLines {p} (c : Circuit (PF p)) : List String :=
       s!"pmult {" ".intercalate ((sm.drop pr.consts.length).map f)}"),
      s!"net {" ".intercalate ((List.range c.witnessCount).map fun s => toString (pr.net s))}"]
 
+/-- Id arguments of a builder command (`none`: not a builder call taking expression ids). -/
+def idArgs (cmd : String) (ns : List Nat) : Option (List Nat) :=
+  match cmd, ns with
+  | "exp2", [x, _] => some [x]
+  | "bits", [x, _] => some [x]
+  | "add", _ | "sub", _ | "mul", _ | "div", _ | "muladd", _ | "horner", _ | "abool", _ | "azero", _
+  | "conn", _ | "sel", _ | "mulmany", _ | "inner", _ => some ns
+  | _, _ => none
+
 /-- Interpret one line. Unknown or ill-formed commands answer `bad-op` (never a default). -/
-def step (st : St) (line : String) : St × List String :=
+def stepCore (st : St) (line : String) : St × List String :=
   let ws := (line.trimAscii.toString.splitOn " ").filter (· ≠ "")
   match ws with
   | [] => (st, [])
@@ -215,7 +228,7 @@ def step (st : St) (line : String) : St × List String :=
               s!"l={b (defUse l.privRows.toList l.ops.toList)} d={b (defUse (l.privRows.toList.map (resolve d.2)) d.1.toList)} k={b (optKeeps l)} f={b (fuseKeeps l)}"
           -- builder-side hypotheses of `P3R.C09C.lower_defuse` (g = hintsGuarded, p = privOk) and of
           -- `P3R.C09O.lower_hdu` (a = operandsGuarded; t = noTableOutputsUsed); f = fuseKeeps
-          (st, prepLines c ++ [s!"defuse c={b c.defUse} {stages} g={b (hintsGuarded st.b)} p={b (privOk st.b)} t={b (noTableOutputsUsed st.b)} a={b (operandsGuarded st.b)}"])
+          (st, prepLines c ++ [s!"defuse c={b c.defUse} {stages} g={b (hintsGuarded st.b)} p={b (privOk st.b)} t={b (noTableOutputsUsed st.b)} a={b (operandsGuarded st.b)} r={b st.rp}"])
       | "sess", toks =>
         -- tokens: (1 n v1..vn | 0 n v1..vn)*   (1 = set_public_inputs, 0 = set_private_inputs)
         match st.c with
@@ -263,5 +276,21 @@ def step (st : St) (line : String) : St × List String :=
                   s!"recs {" ".intercalate (t.alu.toList.map recS)}"])
           | .error e => (st, [s!"run err {errStr e}"])
       | _, _ => (st, ["bad-op"])
+
+/-- `stepCore` + bookkeeping of `St.rp` (token `r=` of the `defuse` line). -/
+def step (st : St) (line : String) : St × List String :=
+  let r := stepCore st line
+  let ws := (line.trimAscii.toString.splitOn " ").filter (· ≠ "")
+  match ws with
+  | [] => r
+  | "prog" :: _ => r
+  | "const" :: _ => r
+  | cmd :: args =>
+    match parseNats args with
+    | none => r
+    | some ns =>
+      match idArgs cmd ns with
+      | some ids => ({ r.1 with rp := st.rp && ids.all (properId st.b.nodes) }, r.2)
+      | none => r
 
 end P3R.Driver
